@@ -531,6 +531,13 @@ func (x *Exec) coerce(v *Value, t types.Type) *Value {
 		}
 		return &Value{T: t, Tm: BVResize(v.Tm, want.W, signed)}
 	}
+	if _, isIface := types.Unalias(t).Underlying().(*types.Interface); isIface {
+		// boxing a non-reference value (string, bool, slice, ...) into an interface: an
+		// under-constrained non-nil reference (the value itself is not tracked through the box)
+		ref := x.fresh("box", IntS)
+		x.vc.assume(Gt(ref, IntLit(0)))
+		return &Value{T: t, Tm: ref}
+	}
 	panic(engErr("cannot coerce %s (sort %s) to %s (sort %s)", v.Tm.SMT(), v.Tm.S, t, want))
 }
 
